@@ -31,3 +31,30 @@ package miner
 //@   opaque computeRBO
 //@   at-call computeRBO assert[enough-shares] len(shares) >= blsThreshold
 //@   at-call computeRBO assert[group-signature-recovered] err == nil
+
+// Only verified shares are counted: a VRF share (the node's own included) is added to the round only
+// after verifyVRFShare accepted it against THE message of this round at its current timeout count
+// (round number, timeout count, previous round's seed - computed by GetBlsMessageForRound).
+//   $vrfOK[s] / $vrfMsg[s]      share object s passed verifyVRFShare / against which message
+//   $curBlsMsg / $curBlsRound   the message GetBlsMessageForRound computed last, and for which round object
+//                               (kept across calls of unknown code: they are assumed not to recompute it)
+//@ ghost $vrfOK (Int) Bool
+//@ ghost $vrfMsg (Int) Str
+//@ ghost $curBlsMsg Str accumulator
+//@ ghost $curBlsRound Int accumulator
+//@ func (*Chain).GetBlsMessageForRound
+//@   trusted
+//@   modifies $curBlsMsg, $curBlsRound
+//@   ensures result1 == nil ==> $curBlsMsg == result0 && $curBlsRound == obj(r)
+//@ func verifyVRFShare
+//@   trusted
+//@   modifies $vrfOK, $vrfMsg
+//@   ensures result ==> $vrfOK[obj(vrfs)] && $vrfMsg[obj(vrfs)] == blsMsg
+//@   ensures forall o int :: o != obj(vrfs) ==> $vrfOK[o] == old($vrfOK[o]) && $vrfMsg[o] == old($vrfMsg[o])
+//@ func (*Chain).AddVRFShare
+//@   prop C33
+//@   requires mc != nil && mr != nil && mr.Round != nil && vrfs != nil
+//@   opaque GetRoundNumber, GetTimeoutCount, GetRoundTimeoutCount, VRFShareExist, GetVRFShares, AddTimeoutVote, GetParty, add, AddVRFShare, ThresholdNumBLSSigReceived, TryProposeBlock, StartVerification, StartNextRound, verifyCachedVRFShares
+//@   at-call GetBlsMessageForRound assert[message-of-this-round] $arg1 == mr.Round
+//@   at-call verifyVRFShare assert[against-the-message-just-computed-for-this-round] $arg1 == vrfs && $arg2 == $curBlsMsg
+//@   at-call Round.AddVRFShare assert[only-verified-shares-are-counted] $arg1 == vrfs && $vrfOK[obj(vrfs)] && $vrfMsg[obj(vrfs)] == $curBlsMsg
